@@ -1,2 +1,45 @@
-(* C06 - caching is invisible (theorems added as they are proved) *)
-From BSE Require Import Model.Val Model.Memo.
+(* C06 - caching is invisible: results do not depend on call history, aliasing or threads.
+   Statements are in Proofs/MemoDefs.v; `memoised` is Gen/GenMemo.v = every @BSEMemoize signature in the source now. *)
+From BSE Require Import Model.Val Gen.GenMemo Model.Memo Proofs.MemoDefs Proofs.MemoSpec.
+
+Theorem make_key_sound : make_key_sound_stmt.
+Proof. exact MemoSpec.make_key_sound. Qed.
+Print Assumptions make_key_sound.
+
+Theorem make_key_complete : make_key_complete_stmt.
+Proof. exact MemoSpec.make_key_complete. Qed.
+Print Assumptions make_key_complete.
+
+Theorem make_key_error_is_the_functions_TypeError : make_key_error_stmt.
+Proof. exact MemoSpec.make_key_error. Qed.
+Print Assumptions make_key_error_is_the_functions_TypeError.
+
+Theorem make_key_share : make_key_share_stmt.
+Proof. exact MemoSpec.make_key_share. Qed.
+Print Assumptions make_key_share.
+
+Theorem make_key_separate : make_key_separate_stmt.
+Proof. exact MemoSpec.make_key_separate. Qed.
+Print Assumptions make_key_separate.
+
+Theorem memo_transparent : forall F sig_of, memo_transparent_stmt F sig_of.
+Proof. exact MemoSpec.memo_transparent. Qed.
+Print Assumptions memo_transparent.
+
+Theorem memo_transparent_concurrent : forall F sig_of, memo_transparent_concurrent_stmt F sig_of.
+Proof. exact MemoSpec.memo_transparent_concurrent. Qed.
+Print Assumptions memo_transparent_concurrent.
+
+(* the signatures of all memoised functions, as translated from the source, meet the hypothesis sig_ok *)
+Theorem memoised_signatures_ok : forall f, sig_ok (sig_table f).
+Proof. exact MemoSpec.sig_table_ok. Qed.
+Print Assumptions memoised_signatures_ok.
+
+(* non-vacuity: three spellings of one valid call share a key; a doubly bound parameter gets none *)
+Definition s2 : sig := {| s_args := ["family"; "data_dir"]; s_defaults := [VNone] |}.
+Example key_demo :
+  make_key s2 [VStr "x"] [] = inr (Some [VStr "x"; VNone]) /\
+  make_key s2 [] [("family", VStr "x")] = inr (Some [VStr "x"; VNone]) /\
+  make_key s2 [VStr "x"; VNone] [] = inr (Some [VStr "x"; VNone]) /\
+  make_key s2 [VStr "x"] [("family", VStr "y")] = inr None.
+Proof. vm_compute. repeat split; reflexivity. Qed.
